@@ -463,7 +463,10 @@ where
         m: &AssignedBigUint<F>,
     ) -> Result<AssignedBigUint<F>, Error> {
         if n == 0 {
-            return self.assign_fixed_biguint(layouter, BigUint::one());
+            // x^0 = 1, reduced modulo m (which may be 1).
+            let one = self.assign_fixed_biguint(layouter, BigUint::one())?;
+            let (_, r) = self.div_rem(layouter, &one, m)?;
+            return Ok(r);
         }
 
         if n == 1 {
